@@ -3,6 +3,8 @@ package main
 import (
 	"fmt"
 	"go/types"
+	"os"
+	"strings"
 
 	"golang.org/x/tools/go/ssa"
 )
@@ -309,6 +311,9 @@ func (ex *Exec) chanRecv(st *State, ch Term, t types.Type, commaOk bool, instr s
 	okT := True
 	if commaOk {
 		okT = ex.D.Fresh("recv.ok", SBool)
+		// a receive only reports !ok on a closed channel
+		cl := ex.heap(st, chanHeap(elem, "closed"), ArrSort(SBool))
+		st.Assume(Or(okT, Select(cl, ch)))
 	}
 	st.Heaps[chanHeap(elem, "recvd")] = Store(r, ch, Ite(okT, App(SLog, "lsnoc", Select(r, ch), ex.valToElem(st, v, t)), Select(r, ch)))
 	ex.recordWrite(chanHeap(elem, "recvd"), LHeap1, ch, ArrSort(SLog))
@@ -326,6 +331,43 @@ func (ex *Exec) chanClose(st *State, ch Term, instr ssa.Instruction, elem types.
 	ex.safe(st, And(Neq(ch, IntT(0)), Not(Select(cl, ch))), instr, "close of nil or closed channel")
 	st.Heaps[chanHeap(elem, "closed")] = Store(cl, ch, True)
 	ex.recordWrite(chanHeap(elem, "closed"), LHeap1, ch, ArrSort(SBool))
+}
+
+// chanFieldKey: "pkg.Type.field" when the channel value was loaded from a struct field.
+func chanFieldKey(v ssa.Value) string {
+	u, ok := v.(*ssa.UnOp)
+	if !ok {
+		return ""
+	}
+	fa, ok := u.X.(*ssa.FieldAddr)
+	if !ok {
+		return ""
+	}
+	n := namedOf(fa.X.Type())
+	if n == nil {
+		return ""
+	}
+	return typeKey(n) + "." + structOf(deref(fa.X.Type())).Field(fa.Field).Name()
+}
+
+// chanInv evaluates the invariant of the channel (if one is declared) on a value.
+func (ex *Exec) chanInv(st *State, ch ssa.Value, v Val, t types.Type) (Term, *MacroDef, bool) {
+	key := chanFieldKey(ch)
+	if key == "" || ex.ctx.specs.ChanInvs == nil {
+		return Term{}, nil, false
+	}
+	md, ok := ex.ctx.specs.ChanInvs[key]
+	if !ok {
+		return Term{}, nil, false
+	}
+	env := ex.baseEnv(st)
+	r, err := env.macro(md, []EV{{V: v, T: t}})
+	if err != nil {
+		ex.errs = append(ex.errs, "contract-binding: chan_invariant "+key+": "+err.Error())
+		return Term{}, nil, false
+	}
+	g, ok := r.V.(Term)
+	return g, md, ok
 }
 
 // effect records blocking operations met on a path (used by the nonblocking effect check).
@@ -366,13 +408,19 @@ func (ex *Exec) selectInstr(st *State, frID int, in *ssa.Select, k func(*State, 
 		st2 := st.Clone()
 		ch := svs[i].ch
 		st2.Assume(Neq(ch, IntT(0)))
-		st2.Trace = append(st2.Trace, fmt.Sprintf("select-case@%s", ex.pos(s2instr(in, i))))
+		st2.Trace = append(st2.Trace, "case:"+ex.caseText(in, i))
 		if s.Dir == types.SendOnly {
+			if g, md, ok := ex.chanInv(st2, s.Chan, svs[i].send, s.Send.Type()); ok {
+				ex.oblige(st2, "chan-invariant", chanFieldKey(s.Chan), nil, g, md.Src)
+			}
 			ex.chanSend(st2, ch, svs[i].send, s.Send.Type(), in, false)
 			k(st2, mk(st2, i, False, -1, nil))
 		} else {
 			et := s.Chan.Type().Underlying().(*types.Chan).Elem()
 			r := ex.chanRecv(st2, ch, et, true, nil).(TupleV)
+			if g, _, ok := ex.chanInv(st2, s.Chan, r[0], et); ok {
+				st2.Assume(Implies(r[1].(Term), g))
+			}
 			k(st2, mk(st2, i, r[1].(Term), i, r[0]))
 		}
 	}
@@ -385,6 +433,27 @@ func (ex *Exec) selectInstr(st *State, frID int, in *ssa.Select, k func(*State, 
 }
 
 func s2instr(in *ssa.Select, i int) ssa.Instruction { return in }
+
+// caseText: the source line of the communication clause of select state i.
+func (ex *Exec) caseText(in *ssa.Select, i int) string {
+	p := in.States[i].Pos
+	if !p.IsValid() {
+		return "?"
+	}
+	ps := ex.ctx.prog.Fset.Position(p)
+	srcMu.Lock()
+	lines, ok := srcCache[ps.Filename]
+	if !ok {
+		data, _ := os.ReadFile(ps.Filename)
+		lines = strings.Split(string(data), "\n")
+		srcCache[ps.Filename] = lines
+	}
+	srcMu.Unlock()
+	if ps.Line >= 1 && ps.Line-1 < len(lines) {
+		return strings.Join(strings.Fields(lines[ps.Line-1]), " ")
+	}
+	return "?"
+}
 
 // ---- go / defer --------------------------------------------------------------------------------
 
